@@ -86,6 +86,8 @@ def configs(tier):
     # histories on one evaluator
     L, P = (2, 3) if tier == "quick" else (3, 4)
     cfgs.append({"name": f"history-L{L}-pool{P}", "kind": "history", "L": L, "P": P})
+    for mi in range(3):
+        cfgs.append({"name": f"retry-after-failed-call-{POOL[mi][0]}", "kind": "retry", "motif": mi})
     return cfgs
 
 
@@ -113,6 +115,24 @@ def path(ctx, cfg):
     AE = AutomatedEquation()
     if cfg["kind"] == "single":
         eval_once(ctx, AE, cfg["gname"], cfg["edges"], cfg["root"], "")
+        return
+    if cfg["kind"] == "retry":
+        # first call on a motif raises because one vertex carries no 'u' yet; the caller repairs the input and calls again
+        nm, es = POOL[cfg["motif"]]
+        nodes = sorted({v for e in es for v in e})
+        root = nodes[ctx.fork_int(ctx.int("root", 0, len(nodes) - 1))]
+        missing = [v for v in nodes if v != root][ctx.fork_int(ctx.int("missing", 0, len(nodes) - 2))]
+        G = nx.Graph(name=nm)
+        G.add_edges_from(es)
+        phi0 = ctx.real("phi_first")
+        for v in nodes:
+            if v != missing:
+                G.nodes[v]["u"] = ctx.real(f"ufirst_{v}")
+        try:
+            AE.automated_equation(G, phi0, root)
+        except Exception:  # noqa  (expected: KeyError 'u')
+            pass
+        eval_once(ctx, AE, nm, es, root, "_retry")
         return
     pool = POOL[: cfg["P"]]
     choices = [(i, r) for i, (nm, es) in enumerate(pool) for r in sorted({v for e in es for v in e})]
